@@ -88,6 +88,10 @@ def gen_items(rng, quick):
     for a in assignments(JITTERS):
         # its own renew_delay (2 days), 20 more days to live: the wait is 20 d less the jitter
         add("jitter", {"certificate": 2 * DAY}, a, 22 * DAY)
+    for lo in ("endpoint", "global"):
+        # a zero duration is a value that is GIVEN: the certificate's 0 wins over the endpoint's / global non-zero value
+        add("delay", {"certificate": 0, lo: 2 * DAY}, {}, DAY)
+        add("jitter", {"certificate": 2 * DAY}, {"certificate": 0, lo: 10 * DAY}, 22 * DAY)
     da, ra = assignments(DELAYS), assignments(JITTERS)
     for _ in range(40 if quick else 600):
         d, r = rng.choice(da), rng.choice(ra)
